@@ -48,8 +48,9 @@ trait Spec: Flat {
     /// reference alignment (C rule applied by hand to the declaration)
     const A: usize;
     /// reference END OF USED DATA (not rounded) of the content read through the accessors; `raw` are the bytes the
-    /// value was mapped from (needed only for the FlexVec chain, whose item offsets are not visible through accessors)
-    fn used_end(&self, raw: &[u8]) -> usize;
+    /// value was mapped from (needed only for the FlexVec chain, whose item offsets are not visible through accessors;
+    /// its walk examines at most bound + 1 links: a link is >= 1 byte)
+    fn used_end(&self, raw: &[u8], bound: usize) -> usize;
     /// assert that `o` has the same content (loops are bounded by the constant `bound`)
     fn same(&self, o: &Self, bound: usize);
 }
@@ -58,7 +59,7 @@ macro_rules! sized_spec {
     ($T:ty, $align:expr, $size:expr) => {
         impl Spec for $T {
             const A: usize = $align;
-            fn used_end(&self, _raw: &[u8]) -> usize { $size }
+            fn used_end(&self, _raw: &[u8], _bound: usize) -> usize { $size }
             fn same(&self, o: &Self, _bound: usize) { assert!(*self == *o, "content differs"); }
         }
     };
@@ -78,7 +79,7 @@ sized_spec!(SEnum, 4, 8);
 /// FlatVec<T,L>: length at 0, elements at ceil(size_of L, align_of T)
 impl<T: Flat + Sized + PartialEq, L: Flat + Length> Spec for FlatVec<T, L> {
     const A: usize = max2(align_of::<T>(), align_of::<L>());
-    fn used_end(&self, _raw: &[u8]) -> usize {
+    fn used_end(&self, _raw: &[u8], _bound: usize) -> usize {
         ceil_to(size_of::<L>(), align_of::<T>()) + self.len() * size_of::<T>()
     }
     fn same(&self, o: &Self, bound: usize) {
@@ -96,7 +97,7 @@ impl<T: Flat + Sized + PartialEq, L: Flat + Length> Spec for FlatVec<T, L> {
 /// FlatString<L>: length at 0, UTF-8 bytes right behind it
 impl<L: Flat + Length> Spec for FlatString<L> {
     const A: usize = align_of::<L>();
-    fn used_end(&self, _raw: &[u8]) -> usize { size_of::<L>() + self.len() }
+    fn used_end(&self, _raw: &[u8], _bound: usize) -> usize { size_of::<L>() + self.len() }
     fn same(&self, o: &Self, bound: usize) {
         let n = self.len();
         assert!(o.len() == n, "content differs: string length");
@@ -118,13 +119,13 @@ macro_rules! flex_spec {
     ($T:ty, $L:ty, $lw:expr, |$p:ident| $item_end:expr) => {
         impl Spec for FlexVec<$T, $L> {
             const A: usize = max2(<$T as Spec>::A, align_of::<$L>());
-            fn used_end(&self, raw: &[u8]) -> usize {
+            fn used_end(&self, raw: &[u8], bound: usize) -> usize {
                 let w = max2(size_of::<$L>(), <$T as Spec>::A);
                 let maxv: usize = if $lw == 1 { 0xff } else { 0xffff };
                 let mut pos = 0usize;
                 let mut end: Option<usize> = None;
                 let mut k = 0;
-                while k < FLEX_BOUND {
+                while k < bound + 1 {
                     if end.is_none() {
                         let o = if $lw == 1 { raw[pos] as usize } else { u16::from_le_bytes([raw[pos], raw[pos + 1]]) as usize };
                         if o == 0 {
@@ -156,8 +157,6 @@ macro_rules! flex_spec {
         }
     };
 }
-/// max number of chain links examined by the reference walk (every harness buffer is <= 16 bytes, links are >= 1 byte)
-const FLEX_BOUND: usize = 17;
 flex_spec!(u8, u8, 1, |p| 1);
 flex_spec!(u16, u8, 1, |p| 2);
 flex_spec!(FlatVec<u8, u8>, u8, 1, |p| 1 + p[0] as usize);
@@ -165,7 +164,7 @@ flex_spec!(FlatVec<u8, u8>, u8, 1, |p| 1 + p[0] as usize);
 /// UStruct (C rule): a u8 @0, b u16 @2, c FlatVec<u8,u16> @4 (length @4, elements @6); align 2
 impl Spec for UStruct {
     const A: usize = 2;
-    fn used_end(&self, _raw: &[u8]) -> usize { 6 + self.c.len() }
+    fn used_end(&self, _raw: &[u8], _bound: usize) -> usize { 6 + self.c.len() }
     fn same(&self, o: &Self, bound: usize) {
         assert!(self.a == o.a && self.b == o.b, "content differs: sized fields");
         self.c.same(&o.c, bound);
@@ -174,7 +173,7 @@ impl Spec for UStruct {
 /// UPad (C rule): a u64 @0, v FlatVec<u8,u16> @8 (length @8, elements @10); align 8 -> up to 7 bytes of trailing padding
 impl Spec for UPad {
     const A: usize = 8;
-    fn used_end(&self, _raw: &[u8]) -> usize { 10 + self.v.len() }
+    fn used_end(&self, _raw: &[u8], _bound: usize) -> usize { 10 + self.v.len() }
     fn same(&self, o: &Self, bound: usize) {
         assert!(self.a == o.a, "content differs: sized fields");
         self.v.same(&o.v, bound);
@@ -183,7 +182,7 @@ impl Spec for UPad {
 /// UBoolVec: n u8 @0, flags FlatVec<Bool,u8> @1 (length @1, elements @2); align 1
 impl Spec for UBoolVec {
     const A: usize = 1;
-    fn used_end(&self, _raw: &[u8]) -> usize { 2 + self.flags.len() }
+    fn used_end(&self, _raw: &[u8], _bound: usize) -> usize { 2 + self.flags.len() }
     fn same(&self, o: &Self, bound: usize) {
         assert!(self.n == o.n, "content differs: sized fields");
         self.flags.same(&o.flags, bound);
@@ -193,7 +192,7 @@ impl Spec for UBoolVec {
 /// (length @8, elements @10)
 impl Spec for UEnum {
     const A: usize = 4;
-    fn used_end(&self, _raw: &[u8]) -> usize {
+    fn used_end(&self, _raw: &[u8], _bound: usize) -> usize {
         match self.as_ref() {
             UEnumRef::A => 1,
             UEnumRef::B(..) => 8,
@@ -225,7 +224,7 @@ fn c05_body<T: Spec + ?Sized, const N: usize>() {
     let b: &[u8] = &back.0[..len];
     let v = match T::from_bytes(b) { Ok(v) => v, Err(_) => return };
     let s = v.size();
-    assert!(s == ceil_to(v.used_end(b), T::A), "C05: size() differs from the reference extent");
+    assert!(s == ceil_to(v.used_end(b, N), T::A), "C05: size() differs from the reference extent");
     assert!(s <= len, "C05: size() exceeds the mapped bytes");
     if s > len { return; }
     let w = match T::from_bytes(&b[..s]) { Ok(w) => w, Err(_) => panic!("C05: the first size() bytes do not validate") };
@@ -244,7 +243,7 @@ fn c06_body<T: Spec + ?Sized, const N: usize>(prefix: bool, extension: bool) {
     let s0: usize = kani::any();
     kani::assume(s0 <= len);
     let m = match T::from_bytes(&b[..s0]) { Ok(m) => m, Err(_) => return };
-    let end = m.used_end(&b[..s0]);
+    let end = m.used_end(&b[..s0], N);
     kani::assume(ceil_to(end, T::A) == s0);
     if prefix {
         let k: usize = kani::any();
@@ -287,9 +286,9 @@ c05!(c05_vec_u8_u16, FlatVec<u8, u16>, 10, 12);
 c05!(c05_vec_u8_u32, FlatVec<u8, u32>, 12, 14);
 c05!(c05_vec_u32_u8, FlatVec<u32, u8>, 12, 14);
 c05!(c05_string_u16, FlatString<u16>, 6, 8);
-c05!(c05_flex_u8_u8, FlexVec<u8, u8>, 6, 19);
-c05!(c05_flex_u16_u8, FlexVec<u16, u8>, 8, 19);
-c05!(c05_flex_vec_u8, FlexVec<FlatVec<u8, u8>, u8>, 6, 19);
+c05!(c05_flex_u8_u8, FlexVec<u8, u8>, 6, 9);
+c05!(c05_flex_u16_u8, FlexVec<u16, u8>, 8, 11);
+c05!(c05_flex_vec_u8, FlexVec<FlatVec<u8, u8>, u8>, 6, 9);
 c05!(c05_ustruct, UStruct, 12, 14);
 c05!(c05_upad, UPad, 24, 26);
 c05!(c05_uenum, UEnum, 16, 18);
@@ -301,9 +300,9 @@ c06!(c06_vec_u8_u16, FlatVec<u8, u16>, 10, 12, true, true);
 c06!(c06_vec_u8_u32, FlatVec<u8, u32>, 12, 14, true, true);
 c06!(c06_vec_u32_u8, FlatVec<u32, u8>, 12, 14, true, true);
 c06!(c06_string_u16, FlatString<u16>, 6, 8, true, true);
-c06!(c06_flex_u8_u8, FlexVec<u8, u8>, 6, 19, true, true);
-c06!(c06_flex_u16_u8, FlexVec<u16, u8>, 8, 19, true, true);
-c06!(c06_flex_vec_u8, FlexVec<FlatVec<u8, u8>, u8>, 6, 19, true, true);
+c06!(c06_flex_u8_u8, FlexVec<u8, u8>, 6, 9, true, true);
+c06!(c06_flex_u16_u8, FlexVec<u16, u8>, 8, 11, true, true);
+c06!(c06_flex_vec_u8, FlexVec<FlatVec<u8, u8>, u8>, 6, 9, true, true);
 c06!(c06_ustruct, UStruct, 12, 14, true, true);
 c06!(c06_upad, UPad, 24, 26, true, true);
 c06!(c06_uenum, UEnum, 16, 18, true, true);
